@@ -943,7 +943,7 @@ func runC09(r *Run, rng *Rng, tier string) error {
 	}
 	// custom-schema builds last: each of them resets the process-wide OpenAPI state before and after itself, which
 	// would make every later build that needs the built-in schema parse it again
-	nSchema := 36
+	nSchema := 48
 	if tier == "thorough" {
 		nSchema = 400
 	}
